@@ -322,7 +322,8 @@ def k_transform(run, case, rng, work):
     form = case["form"]
     R = gen.rand_rot(rng)
     t = rng.normal(size=3) * 10.0**rng.uniform(-2, 4)
-    s = 1.0 if rng.random() < .5 else 10.0**rng.uniform(-2, 2)
+    u = rng.random()
+    s = 1.0 if u < .3 else 10.0**(rng.uniform(-2, 2) if u < .65 else rng.uniform(-6, 6))
     M = np.eye(4)
     M[:3, :3] = s * R
     M[:3, 3] = t
@@ -422,7 +423,7 @@ def main(run):
                                                 "json_missing_key", "json_bad_scale")
               for f in ("npy", "txt", "json")
               if not (k.startswith("json") and f != "json")]
-    reps = {"quick": 6, "thorough": 120}[run.tier]
+    reps = {"quick": 30, "thorough": 300}[run.tier]
     for i in run.mine(len(tcells) * reps):
         KINDS["transform"](run, run.case("transform", i, **tcells[i % len(tcells)]))
     run.need("well-formed file is loaded", "tum: quaternion components in the right slots (w,x,y,z)",
